@@ -13,7 +13,7 @@ DRAFTS = (3, 4, 6, 7)
 NAMES = ["a", "", "a/b", "a~b", "~01", "~1", "%", "%25", "a b", "é", "0", "01", "#", "?", '"', "\\", "~0", "/", "~",
          "\U0001F600", "x.y", "$ref", "definitions", "a%2Fb", "xs:int", "a:b/c"]
 ARRS = ["local", "rootid", "rootidhash", "absref", "relid", "storeabs", "storerel", "storeownid", "chain", "arrayelem",
-        "nestedabs", "nestedrel", "mixed", "shadow", "pctsep"]
+        "nestedabs", "nestedrel", "mixed", "shadow", "pctsep", "claimed"]
 _CLS = None
 _TR = None
 
@@ -99,6 +99,11 @@ def build(d, T, pos, name, arr):
         return first(dict(tref(dref), definitions={name: sub}), idk, ROOT), {ROOT: {"definitions": {name: never}}}
     if arr == "pctsep":
         return dict(tref("#" + dref[1:].replace("/", "%2F")), definitions={name: sub}), {}
+    if arr == "claimed":
+        never = {"disallow": "any"} if d == 3 else {"not": {}}
+        return (tref("http://x.invalid/defs.json" + dref),
+                {"http://x.invalid/defs.json": {"definitions": {name: sub}},
+                 "http://x.invalid/other.json": {idk: "http://x.invalid/defs.json", "definitions": {name: never}}})
     if arr == "urn":
         return first(dict(tref(dref), definitions={name: sub}), idk, "urn:example:root"), {}
     raise KeyError(arr)
